@@ -100,3 +100,38 @@ Check (C06_nonvacuous :
   run [EByte 40%N; EInterrupted; EByte 97%N; EInterrupted; EInterrupted; EByte 41%N] = POk (vlist [Symbol [97%N]]) /\
   run [EByte 34%N; EByte 97%N; EInterrupted; EFail 7%N] = PErr (XErr (EIo 7%N)) /\
   run [EByte 49%N; EByte 50%N; EFail 9%N] = PErr (XErr (EIo 9%N))).
+
+Check (C06_str_slice_agree :
+  forall ro alpha fast std_parse (inp : list event),
+  (exists l c, from_trait ro alpha fast std_parse SrcSlice inp = PErr (XErr (ESyntax InvalidUnicodeCodePoint l c))) \/
+  from_trait ro alpha fast std_parse SrcStr inp = from_trait ro alpha fast std_parse SrcSlice inp).
+
+Check (C06_str_slice_agree_datum :
+  forall ro alpha fast std_parse (inp : list event),
+  (exists l c, datum_from_trait ro alpha fast std_parse SrcSlice inp = PErr (XErr (ESyntax InvalidUnicodeCodePoint l c))) \/
+  datum_from_trait ro alpha fast std_parse SrcStr inp = datum_from_trait ro alpha fast std_parse SrcSlice inp).
+
+Check (C06_three_sources_agree :
+  forall ro alpha fast std_parse (s : bytes),
+  (exists l c, from_trait ro alpha fast std_parse SrcSlice (bytes_events s) = PErr (XErr (ESyntax InvalidUnicodeCodePoint l c))) \/
+  (from_trait ro alpha fast std_parse SrcStr (bytes_events s) = from_trait ro alpha fast std_parse SrcSlice (bytes_events s) /\
+   match from_trait ro alpha fast std_parse SrcSlice (bytes_events s), from_trait ro alpha fast std_parse SrcIo (bytes_events s) with
+   | POk a, POk b => a = b
+   | PErr (XErr (ESyntax c1 _ _)), PErr (XErr (ESyntax c2 _ _)) => c1 = c2
+   | PErr (XErr (EIo a)), PErr (XErr (EIo b)) => a = b
+   | _, _ => False
+   end)).
+
+Check (C06_str_slice_nonvacuous :
+  let W : bytes := (s2b "(" ++ [206; 187] ++ s2b "x #:k ""a\x3bb;" ++ [240; 159; 146; 150] ++ s2b "\n"")")%N in
+  let E : bytes := (s2b "(a " ++ [206; 187] ++ s2b " . )")%N in
+  let bad : bytes := [40; 97; 32; 255; 41]%N in
+  from_trait default_ro (fun _ => true) true dec_to_f64 SrcStr (bytes_events W) =
+    POk (vlist [Symbol [206; 187; 120]%N; Keyword (s2b "k"); String ([97; 206; 187; 240; 159; 146; 150; 10]%N)]) /\
+  from_trait default_ro (fun _ => true) true dec_to_f64 SrcSlice (bytes_events W) =
+    POk (vlist [Symbol [206; 187; 120]%N; Keyword (s2b "k"); String ([97; 206; 187; 240; 159; 146; 150; 10]%N)]) /\
+  from_trait default_ro (fun _ => true) true dec_to_f64 SrcStr (bytes_events E) =
+    from_trait default_ro (fun _ => true) true dec_to_f64 SrcSlice (bytes_events E) /\
+  (exists c l cl, from_trait default_ro (fun _ => true) true dec_to_f64 SrcSlice (bytes_events E) = PErr (XErr (ESyntax c l cl))) /\
+  from_trait default_ro (fun _ => true) true dec_to_f64 SrcSlice (bytes_events bad) =
+    PErr (XErr (ESyntax InvalidUnicodeCodePoint 1 4))).
